@@ -190,6 +190,7 @@ func runC48(c *fw.Ctx) {
 	c48P1(c, g)
 	c48P2(c, g)
 	c48P3(c, g)
+	c48More(c, g)
 }
 
 // ---------------------------------------------------------------- P1
@@ -595,13 +596,17 @@ type c48Setter struct {
 }
 
 func c48P3(c *fw.Ctx, g *fw.Git) {
-	values := []string{"v", "a b", " lead", "trail ", "a#b", "a;b", "a\"b", "a\\b", "a\tb", "a\nb", "a\bb", "ä", "a=b", "[x]", "a\\", "\"", "a  b", "#", "a\\nb", "'q'"}
+	values := []string{"v", "a b", " lead", "trail ", "a#b", "a;b", "a\"b", "a\\b", "a\tb", "a\nb", "a\bb", "ä", "a=b", "[x]", "a\\", "\"", "a  b", "#", "a\\nb", "'q'",
+		// bytes an escaping routine built on Go's %q / strconv.Quote / unicode.IsPrint would rewrite:
+		// non-UTF-8, control bytes, DEL, non-printable code points, astral runes
+		"\xe9", "a\xe9b", "\xff\xfe", "\u00a0", "a\u200bb", "\x01", "a\x1bb", "\x7f", "a\vb", "\f", "\U0001F600", "\tlead", "trail\t", "a\\\"b", strings.Repeat("long ", 900)}
+	odd := []string{"\xe9", "a\xe9b", "\u00a0", "a\u200bb", "\x01", "a\x7fb", "a\tb", "ä", "\U0001F600", "a\\\"b", "a\x1b[mb"}
 	subNames := map[string][]string{
 		"":          {""},
-		"remote":    {"o", "a.b", "a\"b", "A"},
-		"branch":    {"m", "a.b", "a\"b", "f/x"},
-		"submodule": {"m", "a b", "a\"b", "a\\b", "a]b", "a.b"},
-		"url":       {"https://x/", "a b", "a\"b", "a\\b", "a]b", "a#b"},
+		"remote":    append([]string{"o", "a.b", "a\"b", "A"}, odd...),
+		"branch":    append([]string{"m", "a.b", "a\"b", "f/x"}, odd...),
+		"submodule": append([]string{"m", "a b", "a\"b", "a\\b", "a]b", "a.b"}, odd...),
+		"url":       append([]string{"https://x/", "a b", "a\"b", "a\\b", "a]b", "a#b"}, odd...),
 	}
 	c.Bound("p3_values", values)
 	c.Bound("p3_subsection_names", subNames)
@@ -714,6 +719,7 @@ func c48P3(c *fw.Ctx, g *fw.Git) {
 		merr     string
 	}
 	var cases []*p3case
+	validSubs := map[string]map[string]bool{} // per field: subsection names go-git's Validate accepts
 	for si, st := range setters {
 		for _, sub := range subNames[st.sub] {
 			for _, v := range values {
@@ -741,6 +747,10 @@ func c48P3(c *fw.Ctx, g *fw.Git) {
 				if cs.merr == "invalid" {
 					continue // go-git itself refuses this Config value
 				}
+				if validSubs[st.name] == nil {
+					validSubs[st.name] = map[string]bool{}
+				}
+				validSubs[st.name][sub] = true
 				cases = append(cases, cs)
 			}
 		}
@@ -815,10 +825,6 @@ func c48P3(c *fw.Ctx, g *fw.Git) {
 	})
 	perKV := map[string]map[string]bool{}
 	perKFV := map[string]map[string]bool{}
-	fieldKind := map[string]string{}
-	for _, st := range setters {
-		fieldKind[st.name] = st.sub
-	}
 	for _, f := range fails {
 		k := f.kind + "\x00" + f.val
 		if perKV[k] == nil {
@@ -836,7 +842,7 @@ func c48P3(c *fw.Ctx, g *fw.Git) {
 		var key string
 		if len(perKV[k]) >= 3 {
 			key = fmt.Sprintf("P3 %s: value %s (many fields)", f.kind, fw.Q(f.val))
-		} else if len(perKFV[k+"\x00"+f.field]) == len(subNames[fieldKind[f.field]]) {
+		} else if len(perKFV[k+"\x00"+f.field]) == len(validSubs[f.field]) {
 			key = fmt.Sprintf("P3 %s: %s value %s (every subsection name)", f.kind, f.field, fw.Q(f.val))
 		} else {
 			key = fmt.Sprintf("P3 %s: %s[%s] value %s", f.kind, f.field, fw.Q(f.sub), fw.Q(f.val))
